@@ -15,16 +15,27 @@ def run_scripts(ctx, steps, timeout=1500, every=1):
     r = tlc.run_tlc(wd, "MpxDial.tla", "MpxDial_%d.cfg" % steps, timeout=timeout, workers=8, out_name="d%d.out" % steps, heap="6g")
     tlc.require_ok(r, "MpxDial/%d" % steps)
     binp = ctx.go_build("mdial")
-    p = ctx.run([binp, "-in", r.outfile, "-workers", "8", "-every", str(every), "-seed", str(ctx.seed)], timeout=timeout)
-    if p.returncode != 0:
-        raise Broken("mdial failed: %s" % p.stderr[-2000:])
     mism, summary = [], None
-    for line in p.stdout.splitlines():
-        d = json.loads(line)
-        if "summary" in d:
-            summary = d["summary"]
+    # every script with a client that proposes no compression, every third one with a client that proposes lz4
+    for extra in (["-every", str(every)], ["-lz4", "-every", str(3 * every)]):
+        p = ctx.run([binp, "-in", r.outfile, "-workers", "8", "-seed", str(ctx.seed)] + extra, timeout=timeout)
+        if p.returncode != 0:
+            raise Broken("mdial failed: %s" % p.stderr[-2000:])
+        one = None
+        for line in p.stdout.splitlines():
+            d = json.loads(line)
+            if "summary" in d:
+                one = d["summary"]
+            else:
+                if extra[0] == "-lz4":
+                    d["sig"] += "(lz4)"
+                mism.append(d)
+        if not one or (one["scripts"] == 0 and not mism):
+            raise Broken("mdial played no scripts")
+        if summary is None:
+            summary = one
         else:
-            mism.append(d)
-    if not summary or (summary["scripts"] == 0 and not mism):
-        raise Broken("mdial played no scripts")
+            summary["scripts_lz4_client"] = one["scripts"]
+            summary["scripts"] += one["scripts"]
+            summary["steps"] += one["steps"]
     return r, summary, mism
